@@ -57,7 +57,7 @@ enga_prop!(C03A, "C03", profiles = CHECKED,
     assumptions = COMMON_ASSUME.to_vec());
 
 enga_prop!(C04A, "C04", profiles = BOTH_PROFILES,
-    profile = { let mut p = Profile::base(); p.huge = true; p.w_fill = 8; p.w_aligned = 30; p.w_typed = 20; p.w_reopen = 2; p.reopen_modes = &[(2, 0), (2, 2), (1, 3), (1, 1)]; p },
+    profile = { let mut p = Profile::base(); p.huge = true; p.w_fill = 8; p.w_aligned = 30; p.w_typed = 20; p.w_reopen = 2; p.reopen_modes = &[(2, 0), (2, 2), (1, 3), (2, 1)]; p.w_truncate = 3; p },
     mode = Mode::default(),
     nontrivial = |c| c.contains("huge-request") || c.contains("alloc-failed-full"),
     rule = "Engine A histories with boundary-dense huge sizes (u32::MAX-k, u32::MAX-allocated+-d, 2^31+-d, capacity+-d, remaining+-d, random u32) for bytes and extra, every type, on every reachable state, under an overflow-checked and an unchecked build (same seeds). Oracle: no panic, no signal (worker processes supervised), Ok => in-arena range with capacity <= arena capacity + C01/C03 predicates, Err => InsufficientSpace/ReadOnly and allocated/discarded/remaining/free list unchanged. Non-trivial = a request that exceeds remaining() or whose end would pass 2^32",
@@ -111,7 +111,6 @@ enga_prop!(C05, "C05", profiles = CHECKED,
     rule = "Engine A histories on file-backed arenas cut by drop + reopen (map_mut / map_copy / map / map_copy_read_only; capacity same, larger, absent; create or create_new; mapping offset 0..2 pages). After each reopen allocated/discarded/data_offset/min segment/magic/version/free list equal the values at close (for a closed map_copy session: the values saved when it was opened, and the file bytes are unchanged), reserved prefix and every handed-out range byte-identical; the history continues with the shadow map carried over, so C01 disjointness and the C10 policy apply to post-reopen allocations; the histories also contain clear, rewind and discard_freelist (whatever an arena went through before it was closed, it must reopen). Non-trivial = a reopen with >= 1 free segment, >= 1 handed-out range and discarded() > 0",
     quick = 480_000, thorough = 2_000_000,
     assumptions = { let mut v = COMMON_ASSUME.to_vec(); v.push("files live on tmpfs (/dev/shm); durability of sync_all is not observable in-process"); v });
-
 
 // ------------------------------------------------------------------------------------------ C18
 // the ordinary truncate histories plus a rare class of giant arenas: the statement quantifies over n in
@@ -202,8 +201,19 @@ struct GiantSlot(std::fs::File);
 impl GiantSlot {
     fn acquire() -> Option<GiantSlot> {
         use std::os::unix::io::AsRawFd;
-        let base = if std::path::Path::new("/dev/shm").is_dir() { "/dev/shm" } else { "/tmp" };
-        let open = |k: u8| std::fs::OpenOptions::new().create(true).truncate(false).write(true).open(format!("{base}/rv-giant-slot-{k}.lock")).ok();
+        let base = if std::path::Path::new("/dev/shm").is_dir() {
+            "/dev/shm"
+        } else {
+            "/tmp"
+        };
+        let open = |k: u8| {
+            std::fs::OpenOptions::new()
+                .create(true)
+                .truncate(false)
+                .write(true)
+                .open(format!("{base}/rv-giant-slot-{k}.lock"))
+                .ok()
+        };
         let (a, b) = (open(0)?, open(1)?);
         unsafe {
             if libc::flock(a.as_raw_fd(), libc::LOCK_EX | libc::LOCK_NB) == 0 {
